@@ -53,7 +53,8 @@ SimilarExpected(lname, target, supported, underscore) == Lev(lname, target) <= 2
 BaseRows == <<"text", "begin_group", "text", "end_group", "begin_repeat", "int", "end_repeat", "image", "sel1">>
 Triggers == {"disabled", "nolabel_group", "nolabel_repeat", "deprecated", "no_maxpix", "ext_nofilter", "choice_nolabel",
              "dup_id", "or_other_trans", "comment_row",
-             "noclean"}      \* (a modifier, not a trigger: settings clean_text_values = no; warnings and their rows are unchanged)
+             "noclean",      \* (a modifier, not a trigger: settings clean_text_values = no; warnings and their rows are unchanged)
+             "allowdup"}     \* (a modifier: settings allow_choice_duplicates = yes; warnings are unchanged)
 Appended == <<"deprecated", "ext_nofilter", "comment_row">>       \* triggers that append a row, in this order
 AppendIndex(T, t) == Cardinality({i \in 1..Len(Appended) : Appended[i] \in T /\ \E j \in 1..Len(Appended) : (Appended[j] = t /\ i < j)})
 RowOfAppended(T, t, blanks) == Len(BaseRows) + 2 + blanks + AppendIndex(T, t)
@@ -69,6 +70,7 @@ ExpOne(T, t, blanks) ==
     [] t = "or_other_trans" -> {<<"or_other", 0>>}
     [] t = "comment_row"    -> {<<"skip_row", RowOfAppended(T, t, blanks)>>}
     [] t = "noclean"        -> {}
+    [] t = "allowdup"       -> {}
 ExpWarnings(T, blanks) == UNION {ExpOne(T, t, blanks) : t \in T}
 
 (* ------------------------------------------------------------------ generators *)
